@@ -13,6 +13,7 @@ import Driver.C08
 import Driver.C13
 import Driver.C14
 import Driver.C09
+import Driver.C10
 open Ws.Driver
 
 def dispatch (op : String) (args : List String) (obs : String) : String × String :=
@@ -36,6 +37,8 @@ def dispatch (op : String) (args : List String) (obs : String) : String × Strin
   | "wm" => c06wm args obs
   | "up" => c09up args obs
   | "hup" => c09hup args obs
+  | "dl" => c10dl args obs
+  | "dial" => c10dial args obs
   | "neg" => c14neg args obs
   | "popt" => c14popt args obs
   | "msb" => c13msb args obs
